@@ -535,6 +535,19 @@ example :
   rw [mw_history_refines_spec exCfgH (by decide) (by decide) exProfs exProfs_fresh exReqs exReqs_chain]
   decide
 
+/-- Round 5: a transparent request is served and changes nothing, in any state. -/
+theorem mwStep_transparent (c : Cfg) (h : HSt) (r : MReq) (ht : transparent c r = true) :
+    mwStep c h r = (h, .servedNoCount) := by
+  unfold transparent at ht
+  simp only [Bool.and_eq_true, Bool.not_eq_true', Option.isNone_iff_eq_none] at ht
+  obtain ⟨⟨⟨hl, hp⟩, hal⟩, hq⟩ := ht
+  have hg : ∀ g, isRateLimited c g r.now r.addr r.qtype = (g, .allowlisted) := by
+    intro g
+    unfold isRateLimited
+    simp [hq, hal]
+  unfold mwStep
+  simp [hp, hl, serve, serveGlobal, hg]
+
 end Agd.Ratelimit
 
 #print axioms Agd.Ratelimit.mw_history_refines_spec
